@@ -339,8 +339,8 @@ manifest = {
     'not_applicable': [],
     'notes': 'All checks: ./check <id> --tier quick|thorough. Exit 0 held / 1 violation / 2 machinery failure. '
              'Genuine defects repaired in /repo are "fix:" commits listed in known_findings.json (status fixed; 31 of them); no '
-             'known finding is left on a listed property. Beyond the 20 listed properties the specification covers eleven more '
-             'components (growth checks ./check G01..G11, statements in growth.jsonl, DESIGN 0.7; their findings are recorded as '
+             'known finding is left on a listed property. Beyond the 20 listed properties the specification covers twelve more '
+             'components (growth checks ./check G01..G12, statements in growth.jsonl, DESIGN 0.7; their findings are recorded as '
              'known under G0x and are not part of this manifest). seeded/ (127 independent property-breaking changes) and benign/ '
              '(independent property-preserving changes) with tools/seed_matrix.py are the regression suite of the checks.',
 }
